@@ -33,7 +33,9 @@ def jobs(tier, seed):
             masks = list(range(1, 256)) + [0x3FF, 0x300, 0x155, 0x2AA]
         for mk in masks:
             for raw in (0, 1):
-                J.append(dict(entry="h_c03", args=[ver, feat, mk, raw], budget=bud))
+                J.append(dict(entry="h_c03", args=[ver, feat, mk, raw, 0], budget=bud))
+        for mk in masks[:3] + masks[-2:]:
+            J.append(dict(entry="h_c03", args=[ver, feat, mk, 1, 1], budget=bud))
     return J
 
 
